@@ -57,9 +57,15 @@ def ev(op, idx=0, kind="", status="", calls=None, msg=0, who=0, how=""):
             "who": who, "how": how}
 
 
-def execute(cfg):
+FOLLOWUP_CMDS = ["open_run", "create", "read", "save", "close_run"]
+
+
+def execute(cfg, followup=False):
     """Run scenario cfg = {names, raise (lists of document indices), ignore, catch, cmds} on a real RunEngine.
-    Returns the observed events in the vocabulary of DispatcherErr.tla."""
+    Returns the observed events in the vocabulary of DispatcherErr.tla.
+    followup: afterwards the same callback functions are unsubscribed and subscribed again (what the next RE(plan, subs) call
+    does with per-call subscriptions) while the exception the first call raised is still referenced by the caller (as an
+    interactive session does: sys.last_value), and a second, fault-free call is made; returns (events, (cfg2, events2))."""
     from bluesky import Msg
     from harness.props.C18 import fresh_re
     RE = fresh_re()
@@ -82,19 +88,22 @@ def execute(cfg):
                 events.append(ev("emit", 0, name, "", [], st["msg"]))
             same = name == st["name"] and doc == st["doc"]
             events[-1]["calls"].append(k if same else -k)       # a different document than the one emitted: mismatch
-            if st["n"] in raises:
+            if st["n"] in raises and st.get("armed", True):
                 e = CbError(k)
                 excs[id(e)] = e
                 raise e
         cb.__name__ = f"cb{k}"
         return cb
 
+    fns, toks = [], []
     for k, nm in enumerate(cfg["names"], 1):
-        RE.subscribe(mk(k, set(cfg["raise"][k - 1])), nm)
+        fns.append(mk(k, set(cfg["raise"][k - 1])))
+        toks.append(RE.subscribe(fns[-1], nm))
+    kept = []       # exceptions the caller keeps (their tracebacks reference the frames the callbacks were called from)
 
-    def plan():
+    def plan(cmds=None):
         try:
-            for i, c in enumerate(cfg["cmds"], 1):
+            for i, c in enumerate(cmds or cfg["cmds"], 1):
                 st["msg"] = i
                 try:
                     if c == "read":
@@ -115,13 +124,35 @@ def execute(cfg):
         RE(plan())
         events.append(ev("end", how="ret"))
     except CbError as ex:
+        kept.append(ex)
         events.append(ev("end", how="raise", who=ex.k if id(ex) in excs else -1))
     except Exception as ex:     # noqa
+        kept.append(ex)
         events.append(ev("end", how="raise", who=-1))
         events[-1]["_exc"] = repr(ex)
     if RE.state != "idle":
         events.append(ev("end", how=f"state={RE.state}", who=-1))
-    return events
+    if not followup:
+        return events
+    first = list(events)
+    cfg2 = dict(cfg, cmds=list(FOLLOWUP_CMDS), catch=False)
+    cfg2["raise"] = [[] for _ in cfg["names"]]
+    if RE.state != "idle":
+        return first, None
+    for t in toks:
+        RE.unsubscribe(t)
+    for fn, nm in zip(fns, cfg["names"]):
+        RE.subscribe(fn, nm)
+    del events[:]
+    st.update(n=0, msg=0, name=None, doc=None, armed=False)
+    try:
+        RE(plan(FOLLOWUP_CMDS))
+        events.append(ev("end", how="ret"))
+    except Exception as ex:     # noqa
+        events.append(ev("end", how="raise", who=-1))
+        events[-1]["_exc"] = repr(ex)
+    del kept[:]
+    return first, (cfg2, list(events))
 
 
 def cfg_key(c):
@@ -238,7 +269,10 @@ def run(ctx):
     traces = []
     for _ in range(120 if ctx.quick else 3000):
         c = random_cfg(rng)
-        traces.append({"cfg": c, "ev": strip(execute(c))})
+        first, second = execute(c, followup=True)
+        traces.append({"cfg": c, "ev": strip(first)})
+        if second is not None:
+            traces.append({"cfg": second[0], "ev": strip(second[1])})
     v = validate_traces("DispatcherErrTrace", "DispatcherErrTrace.cfg", traces, SD, ctx.out, tag="C19t", timeout=3000, env=FAST_ENV)
     ctx.add_tlc(v.res, "DispatcherErrTrace")
     for t in traces:
